@@ -323,8 +323,10 @@ def build(cfg, world, shared=None):
     if al.get('signal_handler') == 'other_adjust' and getattr(world, 'extra', None) is None:
         # the signals read their closes from their own data handler (same files, the other price-adjustment setting)
         sig_handler = BacktestDataHandler(universe, data_sources=[CSVDailyBarDataSource(world.dir, None, adjust_prices=not world.adjust)])
+    weights_obj = None
     if al['kind'] == 'fixed':
-        alpha = FixedSignalsAlphaModel(dict(al['weights']))
+        weights_obj = dict(al['weights'])
+        alpha = FixedSignalsAlphaModel(weights_obj)
     elif al['kind'] == 'single':
         alpha = SingleSignalAlphaModel(universe, signal=al.get('signal', 1.0))
     elif al['kind'] == 'switch':
@@ -406,6 +408,7 @@ def build(cfg, world, shared=None):
             else:
                 os.environ['QSTRADER_CSV_DATA_DIR'] = old_env
     sess._qsmon_default_handler = bool(default_handler)
+    sess._qsmon_weights_obj = weights_obj if (shared is None or 'alpha' not in shared) else None
     return sess, sigs
 
 
@@ -463,7 +466,8 @@ def check_c08(cfg, world, tr, acc):
     want = {a: q for a, q in ref.held.items() if q}
     if got != want:
         V('C08', 'final-holdings', 'final holdings %s, the trading rules give %s' % (got, want))
-    ec = sess.get_equity_curve()
+    caller_weights_untouched('C08', cfg, tr)
+    ec = equity_curve_of(sess, acc)
     gd = list(ec.index)
     wd = [d for d, _ in ref.equity]
     if gd != wd:
@@ -477,6 +481,30 @@ def check_c08(cfg, world, tr, acc):
     acc.count('C08:rebalances_matched', len(orders))
     acc.count('ambiguous_boundary', ref.ambiguous)
     return ref
+
+
+def equity_curve_of(sess, acc=None):
+    """The session's equity curve, read the way report code does: a first copy is obtained and reworked in place (rescaled,
+    given extra columns, re-indexed - exactly what the library's own statistics classes do to the frame they are given),
+    then the curve is asked for again. The second answer is the one that is judged."""
+    first = sess.get_equity_curve()
+    try:
+        if len(first.index):
+            first['Equity'] = first['Equity'] / 3.0
+            first['Returns'] = 0.0
+            first.index = list(range(len(first.index)))
+    except Exception:
+        pass
+    if acc is not None:
+        acc.count('sessions_whose_equity_curve_was_reworked_before_being_read_again')
+    return sess.get_equity_curve()
+
+
+def caller_weights_untouched(prop, cfg, tr):
+    obj = getattr(tr.session, '_qsmon_weights_obj', None) if tr.session is not None else None
+    if obj is not None and obj != cfg['alpha']['weights']:
+        V(prop, 'caller-weights-modified', 'the weights dict the caller gave to the alpha model was %s and is %s after the session'
+          % (cfg['alpha']['weights'], obj))
 
 
 def expected_equity_dates(cfg):
@@ -530,7 +558,8 @@ def check_c14(cfg, world, tr, acc):
           % (len(seen), cfg['start'], cfg['end'], len(want_clock), miss[:3]))
     acc.count('C14:clock_events_followed', len(seen))
     # equity curve: one point per business day with its close in [max(start, burn-in), end]
-    ec = sess.get_equity_curve()
+    caller_weights_untouched('C14', cfg, tr)
+    ec = equity_curve_of(sess, acc)
     want_dates = expected_equity_dates(cfg)
     got_dates = list(ec.index)
     if got_dates != want_dates:
